@@ -160,6 +160,21 @@ pub fn drive_schedule(log: &mut Log, im: &mut Impl, or: &mut Oracle, rng: &mut R
                 continue;
             }
         }
+        // a selection the role does not allow (Data for a Responder) or that goes backwards (Stdin while a Filter is on Data): it
+        // must be rejected and change nothing — whatever the parser is in the middle of
+        if d.active.is_some() && rng.chance(1, 25) {
+            let cur = d.active.unwrap();
+            let bad: Option<u8> = match (role, cur) { (1, 5) => Some(8), (3, 8) => Some(5), _ => None };
+            if let Some(sb) = bad {
+                let (keep_buf, keep_end) = (d.buf.clone(), d.last_end);
+                let o = d.simple(log, im, &format!("str.set_stream {sb}"));
+                d.last_end = keep_end;
+                if o.starts_with("ok") { or.fail(format!("set_stream({sb}) was accepted for role {role} with stream {cur} active"), log.replay_block(), format!("{}:bad-select-accepted", d.prop)); break; }
+                if d.buf != keep_buf || d.active != Some(cur) { or.fail(format!("a rejected set_stream({sb}) changed the active stream or its buffered data"), log.replay_block(), format!("{}:rejected-select-changed-state", d.prop)); }
+                or.count("rejected_selections");
+                continue;
+            }
+        }
         // early skip of the current stream
         if allow_early_skip && d.active.is_some() && !d.last_end && rng.chance(1, 60) {
             let cur = d.active.unwrap();
